@@ -24,12 +24,12 @@ SPEC = {
           domain="every byte string of <= 6 bytes that std::str::from_utf8 accepts", bound="len <= 6, unwind 10"),
         H("c10_name_syntax_n8", mod=NAME, functions=F_N, tiers=("thorough",), heavy=True,
           domain="every byte string of <= 8 bytes that std::str::from_utf8 accepts", bound="len <= 8, unwind 12"),
-        H("c10_name_new", mod=NAME, functions=F_C, heavy=True, domain="every valid-UTF-8 string <= 3 bytes", bound="len <= 3"),
-        H("c10_name_new_static", mod=NAME, functions=F_C, heavy=True, domain="every valid-UTF-8 string <= 3 bytes", bound="len <= 3"),
-        H("c10_name_try_from_str", mod=NAME, functions=F_C, heavy=True, domain="every valid-UTF-8 string <= 3 bytes", bound="len <= 3"),
-        H("c10_name_try_from_string", mod=NAME, functions=F_C, heavy=True, domain="every valid-UTF-8 string <= 3 bytes", bound="len <= 3"),
-        H("c10_name_try_from_string_ref", mod=NAME, functions=F_C, heavy=True, domain="every valid-UTF-8 string <= 3 bytes", bound="len <= 3"),
-        H("c10_name_try_from_arc", mod=NAME, functions=F_C, heavy=True, domain="every valid-UTF-8 string <= 3 bytes", bound="len <= 3"),
+        H("c10_name_new", mod=NAME, functions=F_C, heavy=True, domain="every valid-UTF-8 string <= 3 bytes over ASCII + U+00E9", bound="len <= 3"),
+        H("c10_name_new_static", mod=NAME, functions=F_C, heavy=True, domain="every valid-UTF-8 string <= 3 bytes over ASCII + U+00E9", bound="len <= 3"),
+        H("c10_name_try_from_str", mod=NAME, functions=F_C, heavy=True, domain="every valid-UTF-8 string <= 3 bytes over ASCII + U+00E9", bound="len <= 3"),
+        H("c10_name_try_from_string", mod=NAME, functions=F_C, heavy=True, domain="every valid-UTF-8 string <= 3 bytes over ASCII + U+00E9", bound="len <= 3"),
+        H("c10_name_try_from_string_ref", mod=NAME, functions=F_C, heavy=True, domain="every valid-UTF-8 string <= 3 bytes over ASCII + U+00E9", bound="len <= 3"),
+        H("c10_name_try_from_arc", mod=NAME, functions=F_C, heavy=True, domain="every valid-UTF-8 string <= 3 bytes over ASCII + U+00E9", bound="len <= 3"),
         H("c10_name_deserialize", mod=NAME, functions=F_C, heavy=True, domain="every valid-UTF-8 string <= 3 bytes through serde StrDeserializer", bound="len <= 3"),
         H("c10_name_twin_must_fail", mod=NAME, functions=F_N, expect="twin", heavy=True, domain="vacuity twin", bound="-"),
         H("c10_int_syntax_n5", mod=NUM, functions=F_I, heavy=True, domain="every string <= 5 bytes over " + ALPHA, bound="len <= 5, unwind 8"),
@@ -47,7 +47,9 @@ SPEC = {
           domain="every i32", bound="unwind 13 (<= 11 characters)"),
         H("c10_num_twin_must_fail", mod=NUM, functions=F_I, expect="twin", heavy=True, domain="vacuity twin", bound="-"),
     ],
-    "stubs": ["alloc::fmt::format -> empty String (error messages are not the subject)"],
+    "stubs": ["alloc::fmt::format -> empty String (error messages are not the subject)",
+              "core::unicode::unicode_data::{alphabetic, n}::lookup -> their exact values on the constructor harnesses' domain (ASCII plus U+00E9): "
+              "unchanged code never calls them; a constructor that starts using Unicode classes is then decided instead of ending in an unwinding failure"],
     "assumptions": [
         "reference = byte-level matchers for the Name / IntValue / FloatValue lexical grammars (October 2021) in harness/compiler/c10_*.rs",
         "numeric-literal strings range over a 16-byte alphabet that contains every character class the two functions distinguish "
